@@ -55,6 +55,7 @@ type GenOpts struct {
 	PShadow     float64  // probability that the enclosing function shadows generated identifiers
 	PBare       float64  // probability that argument values are passed as bare identifiers named like generated ones
 	PNamedBool  float64  // probability that a predicate returns a declared boolean type (free verdict; E-GEN only)
+	Wide        bool     // C03: favour many independent tasks and the default limit
 }
 
 // DefaultOpts is the broad mixture.
@@ -219,7 +220,11 @@ func GenFlow(t *rapid.T, name string, o GenOpts) *rt.Spec {
 }
 
 func genCommon(t *rapid.T, s *rt.Spec, o GenOpts) {
-	switch uniform(t, "conc", 6) {
+	nconc := 6
+	if o.Wide {
+		nconc = 3 // mostly the default limit
+	}
+	switch uniform(t, "conc", nconc) {
 	case 0, 1:
 		s.Conc = ""
 	case 2:
@@ -283,6 +288,9 @@ func GenParallel(t *rapid.T, name string, o GenOpts) *rt.Spec {
 	s := &rt.Spec{Name: name, Kind: "parallel"}
 	unit, coll := 0, 0
 	np := uniform(t, "nptasks", 6)
+	if o.Wide && prob(t, "wide", 0.5) {
+		np = 6 + uniform(t, "nptasks2", 6) // more tasks than the default limit of 4 under few processors
+	}
 	ns := uniform(t, "nslices", 3)
 	nm := uniform(t, "nmaps", 3)
 	if np+ns+nm == 0 {
@@ -294,7 +302,7 @@ func GenParallel(t *rapid.T, name string, o GenOpts) *rt.Spec {
 		run := 1 + uniform(t, "run", 3)
 		asTasks := prob(t, "astasks", 0.5)
 		for k := 0; k < run && i < np; k++ {
-			sp := []string{"lit", "lit", "lit", "top", "method", "funcvar", "callret", "generic"}[uniform(t, "spelling", 8)]
+			sp := []string{"lit", "lit", "lit", "top", "method", "funcvar", "callret", "generic", "samemethod", "samemethod"}[uniform(t, "spelling", 10)]
 			pt := rt.PTaskSpec{Unit: unit, Ctx: prob(t, "ctx", 0.5), Err: prob(t, "err", 0.5), Group: -1, Sp: sp}
 			if sp == "top" || sp == "generic" {
 				pt.Ctx = true
@@ -317,7 +325,8 @@ func GenParallel(t *rapid.T, name string, o GenOpts) *rt.Spec {
 			e.I = 0
 		}
 		sl := rt.SliceSpec{Unit: unit, Coll: coll, Elem: e, Index: prob(t, "index", 0.6), Ctx: prob(t, "ctx", 0.5), Err: prob(t, "err", 0.5),
-			Named: k == "T" && prob(t, "named", 0.3), Sp: []string{"lit", "lit", "funcvar", "top"}[uniform(t, "slicesp", 4)]}
+			Named: k == "T" && prob(t, "named", 0.3), Sp: []string{"lit", "lit", "funcvar", "top"}[uniform(t, "slicesp", 4)],
+			Boxed: prob(t, "boxed", 0.35)}
 		if sl.Sp == "top" {
 			sl.Ctx = true
 		}
@@ -338,7 +347,7 @@ func GenParallel(t *rapid.T, name string, o GenOpts) *rt.Spec {
 		}
 		mp := rt.MapSpec{Unit: unit, Coll: coll, Elem: e, Ctx: prob(t, "ctx", 0.5), Err: prob(t, "err", 0.5),
 			Sp:   []string{"lit", "lit", "funcvar"}[uniform(t, "mapsp", 3)],
-			KeyK: []string{"", "", "int", "struct"}[uniform(t, "mapkey", 4)], Named: prob(t, "namedmap", 0.3)}
+			KeyK: []string{"", "", "int", "struct"}[uniform(t, "mapkey", 4)], Named: prob(t, "namedmap", 0.3), Boxed: prob(t, "boxedmap", 0.35)}
 		unit++
 		coll++
 		if prob(t, "end", o.PEnd) {
